@@ -335,8 +335,14 @@ impl Engine for C03 {
                     }
                     match c {
                         Case::Inspect { .. } => {
-                            if let Err(e) = inspect(&cache, st, &format!("writer held before system call #{idx} {}", g.short())) {
-                                verdict = Err(e);
+                            // (writes of a thousand slices make thousands of calls: every one of the
+                            // first 200 is inspected, then every 16th — the interesting ones, the
+                            // renames and links at the end, are path calls and always inspected)
+                            let look = idx < 200 || idx % 16 == 0 || !g.is_write_class();
+                            if look {
+                                if let Err(e) = inspect(&cache, st, &format!("writer held before system call #{idx} {}", g.short())) {
+                                    verdict = Err(e);
+                                }
                             }
                             if idx > 0 {
                                 points.push(base ^ (idx as u64).wrapping_mul(0x9e3779b97f4a7c15));
